@@ -70,7 +70,7 @@ def _need_ok(res, what: str) -> None:
 # ================================================================================================
 # the judge: TLC evaluates the property on observed results
 # ================================================================================================
-def judge(ctx, structs: list, fix: list, ren: list, tag: str, chunk: int = 150000):
+def judge(ctx, structs: list, fix: list, ren: list, tag: str, chunk: int = 100000):
     """fix: [sidx, pre, post, cf]; ren: [pre, pairs, post, out]. Returns (fix verdicts, ren verdicts):
     fix verdict i = (broken clauses, conforms); ren verdict i = holds."""
     fv, rv = [None] * len(fix), [None] * len(ren)
@@ -104,13 +104,23 @@ def judge(ctx, structs: list, fix: list, ren: list, tag: str, chunk: int = 15000
 # ================================================================================================
 # part A
 # ================================================================================================
-def _auth_trace_validate(ctx, traces: list, ng: int, tag: str):
-    tf = os.path.join(ctx.scratch, f"auth_traces_{tag}.json")
-    names_auth.write_trace_file(tf, traces, ng)
-    res = _tlc(ctx, _p("NamesAuthTrace.tla"), _p("NamesAuthTrace.cfg"), tag=f"auth-trace-{tag}", env={"TRACE_FILE": tf},
-                  deadlock=False, timeout=3000)
-    _need_ok(res, f"authority trace validation ({tag})")
-    rep = names_auth.parse_reports(res)
+def _auth_trace_validate(ctx, traces: list, ng: int, tag: str, chunk: int = 400):
+    """Validated in batches: TLC parses the trace file once per worker, so files are kept small."""
+    rep = {"acc": set(), "div": {}, "fresh": [], "kept": []}
+    for k, off in enumerate(range(0, len(traces), chunk)):
+        part = traces[off:off + chunk]
+        tf = os.path.join(ctx.scratch, f"auth_traces_{tag}_{k}.json")
+        names_auth.write_trace_file(tf, part, ng)
+        res = _tlc(ctx, _p("NamesAuthTrace.tla"), _p("NamesAuthTrace.cfg"), tag=f"auth-trace-{tag}-{k}", env={"TRACE_FILE": tf},
+                   deadlock=False, timeout=3000)
+        _need_ok(res, f"authority trace validation ({tag}/{k})")
+        r = names_auth.parse_reports(res)
+        rep["acc"] |= {t + off for t in r["acc"]}
+        rep["div"].update({t + off: l for t, l in r["div"].items()})
+        rep["fresh"] += [(t + off, l, items) for t, l, items in r["fresh"]]
+        rep["kept"] += [(t + off, l) for t, l in r["kept"]]
+        os.unlink(tf)
+        os.unlink(res.out_path)
     missing = set(range(1, len(traces) + 1)) - rep["acc"] - set(rep["div"])
     if missing:
         raise MachineryError(f"authority traces ({tag}): {len(missing)} traces neither accepted nor rejected")
